@@ -395,6 +395,8 @@ func concScenarios(thorough bool) []string {
 		mk([]uint64{A, B}, fmt.Sprintf("rtj:%d:%d;rtj:%d:%d", j1, B, j2, B), 0),
 		mk([]uint64{A, B, C}, fmt.Sprintf("rtj:%d:%d;rtl:%d:%d", A+(B-A)/2, B, A, B), 0),
 	}
+	// the ring creator leaves while it admits its first joiner (successor still itself)
+	out = append(out, mk([]uint64{B}, fmt.Sprintf("leave:%d;join:%d:%d", B, j1, B), 0))
 	if thorough {
 		out = append(out,
 			mk([]uint64{A, B, C}, fmt.Sprintf("leave:%d;leave:%d;join:%d:%d", A, B, j1, C), 0),
